@@ -103,18 +103,21 @@ fn config_overrides(ctx: &mut Ctx) {
     let mut ledger = String::from("2009-01-05 BUY AAA 1000 @ 1 FEES 0\n");
     for y in &years { ledger.push_str(&format!("{y}-06-01 SELL AAA 1 @ 2 FEES 0\n")); }
     #[derive(Clone)]
-    enum F { Absent, Malformed, Table(Vec<(i64, Decimal)>) }
+    enum F { Absent, Malformed, Table(Vec<(i64, Decimal, String)>) }
     let gen_file = |r: &mut crate::rng::Rng| -> F {
         match r.below(6) {
             0 => F::Absent,
             1 => F::Malformed,
             _ => {
-                let mut t: Vec<(i64, Decimal)> = Vec::new();
+                // one entry in six spells its year with a leading zero or plus sign; a year may then occur twice
+                // in one file, in different spellings — the entry whose spelling sorts last counts
+                let mut t: Vec<(i64, Decimal, String)> = Vec::new();
                 for _ in 0..(1 + r.below(4)) {
                     let y = if r.chance(1, 8) { 70000 } else { *r.pick(&years) };
-                    if t.iter().any(|e| e.0 == y) { continue; }
+                    let sp = if r.chance(1, 6) { format!("{}{y}", *r.pick(&["0", "00", "+", "+0"])) } else { y.to_string() };
+                    if t.iter().any(|e| e.2 == sp) { continue; }
                     let amt = if r.chance(1, 4) { Decimal::new(r.range(0, 2_000_000), 2) } else { Decimal::from(r.range(0, 30) * 500 + r.range(0, 3)) };
-                    t.push((y, amt.normalize()));
+                    t.push((y, amt.normalize(), sp));
                 }
                 F::Table(t)
             }
@@ -124,18 +127,19 @@ fn config_overrides(ctx: &mut Ctx) {
         match f {
             F::Absent => None,
             F::Malformed => Some("[exemptions\n\"2024\" = = 1\n".to_string()),
-            F::Table(t) => Some(format!("[exemptions]\n{}", t.iter().map(|(y, a)| format!("\"{y}\" = {a}\n")).collect::<String>())),
+            F::Table(t) => Some(format!("[exemptions]\n{}", t.iter().map(|(_, a, sp)| format!("\"{sp}\" = {a}\n")).collect::<String>())),
         }
     };
     let wire = |f: &F| -> String {
         match f {
             F::Absent | F::Malformed => "!".to_string(),
             F::Table(t) if t.is_empty() => "-".to_string(),
-            F::Table(t) => t.iter().map(|(y, a)| format!("{y}={}", Q::from_dec(*a).wire())).collect::<Vec<_>>().join(";"),
+            // what `from_toml` makes of the file: per year the entry whose spelling sorts last
+            F::Table(t) => { let mut ys: Vec<i64> = t.iter().map(|e| e.0).collect(); ys.sort(); ys.dedup(); ys.iter().map(|y| { let e = t.iter().filter(|e| e.0 == *y).max_by(|a, b| a.2.cmp(&b.2)).expect("entry"); format!("{y}={}", Q::from_dec(e.1).wire()) }).collect::<Vec<_>>().join(";") }
         }
     };
     for k in 0..n {
-        let (f1, f2) = if k == 0 { (F::Table(vec![(2024, Decimal::from(1234)), (2031, Decimal::from(5000))]), F::Absent) } else { (gen_file(&mut r), gen_file(&mut r)) };
+        let (f1, f2) = if k == 0 { (F::Table(vec![(2024, Decimal::from(1234), "2024".into()), (2031, Decimal::from(5000), "2031".into()), (2024, Decimal::from(777), "02024".into())]), F::Absent) } else { (gen_file(&mut r), gen_file(&mut r)) };
         let s = cli::Scratch::new();
         s.write("in.cgt", &ledger);
         if let Some(t) = toml(&f1) { s.write("config.toml", &t); }
@@ -153,7 +157,7 @@ fn config_overrides(ctx: &mut Ctx) {
                 continue;
             };
             // oracle on the implementation: the last file that names the year, else the embedded table
-            let named = |f: &F| -> Option<Q> { if let F::Table(t) = f { t.iter().find(|e| e.0 == *y).map(|e| Q::from_dec(e.1)) } else { None } };
+            let named = |f: &F| -> Option<Q> { if let F::Table(t) = f { t.iter().filter(|e| e.0 == *y).max_by(|a, b| a.2.cmp(&b.2)).map(|e| Q::from_dec(e.1)) } else { None } };
             let emb = run_impl::embedded_exemptions().iter().find(|e| e.0 as i64 == *y).map(|e| Q::from_dec(e.1));
             let want = named(&f2).or(named(&f1)).or(emb);
             let show = |q: &Option<Q>| q.as_ref().map(|q| q.approx()).unwrap_or_else(|| "unconfigured (error)".into());
@@ -223,7 +227,7 @@ pub fn run(ctx: &mut Ctx) {
     let cfg = GenCfg::standard();
     let n = ctx.n(500, 30_000);
     let cases = matcher_cases(prop, ctx, &cfg, n);
-    ctx.ev.rule = "corpus + repo fixtures + generated ledgers (gains and losses, several sales per day, dividends, cost events) × exemption configurations (embedded, embedded with overrides, all years); plus foreign-currency variants (price, fee and dividend currencies drawn independently from GBP/USD/EUR, bundled monthly rates): the report's figures against the identities on amounts converted at each amount's own currency; plus override files through the real CLI: random ./config.toml and ~/.config/cgt-tool/config.toml (absent, unparseable, or tables replacing/adding years incl. a non-u16 key) × 9 probe years, exemption of `report --year Y --format json` vs the last-file-wins rule and vs the model's loadWithOverrides. Compared: every field of the report against the model's reportFrom applied to the implementation's own legs (so the matcher is outside this property's projection). Non-trivial = accepted report with ≥ 2 disposals in one tax year, or both a gain and a loss; distinct by ledger text + configuration.".into();
+    ctx.ev.rule = "corpus + repo fixtures + generated ledgers (gains and losses, several sales per day, dividends, cost events) × exemption configurations (embedded, embedded with overrides, all years); plus foreign-currency variants (price, fee and dividend currencies drawn independently from GBP/USD/EUR, bundled monthly rates): the report's figures against the identities on amounts converted at each amount's own currency; the same identities on the single-year report (`--year`) of up to two tax years that have a DIVIDEND line or a sale; plus override files through the real CLI: random ./config.toml and ~/.config/cgt-tool/config.toml (absent, unparseable, or tables replacing/adding years incl. a non-u16 key and years spelled with leading zeros or a plus sign, possibly twice in one file — the spelling that sorts last counts) × 9 probe years, exemption of `report --year Y --format json` vs the last-file-wins rule and vs the model's loadWithOverrides. Compared: every field of the report against the model's reportFrom applied to the implementation's own legs (so the matcher is outside this property's projection). Non-trivial = accepted report with ≥ 2 disposals in one tax year, or both a gain and a loss; distinct by ledger text + configuration.".into();
     foreign_currency(ctx, &cases);
     let mut r = crate::rng::Rng::new(ctx.seed ^ 0xC04);
     for (name, l) in cases {
@@ -247,6 +251,26 @@ pub fn run(ctx: &mut Ctx) {
                 ctx.ev.count(&format!("rejected:{}", e.kind));
                 if e.kind == "panic" {
                     ctx.ev.violation("crash", format!("panic: {}", e.detail), replay_text(prop, "crash", &e.detail, &l, &[]));
+                }
+            }
+        }
+        // the single-year report goes through its own builder: the same identities, for the tax years of
+        // the ledger's DIVIDEND lines (a year may have dividends and no disposal) and of its sales
+        if imp.is_ok() {
+            let mut ys: Vec<i32> = l.iter().filter(|t| matches!(t.kind, Kind::Dividend | Kind::Sell)).map(|t| { let (yy, mm, dd) = (chrono::Datelike::year(&t.date), chrono::Datelike::month(&t.date), chrono::Datelike::day(&t.date)); if (mm, dd) < (4, 6) { yy - 1 } else { yy } }).collect();
+            ys.sort(); ys.dedup();
+            r.shuffle(&mut ys);
+            for y in ys.into_iter().take(2) {
+                ctx.ev.count("single-year-reports");
+                match run_impl::impl_calc(&l, Some(y), &ex) {
+                    Ok(one) => {
+                        if one.years.len() != 1 || one.years[0].year != y as i64 {
+                            ctx.ev.violation("oracle", format!("the report for {y} lists tax years {:?}", one.years.iter().map(|t| t.year).collect::<Vec<_>>()), replay_text(prop, "oracle", "single-year report", &l, &[format!("case {name}"), format!("year {y}")]));
+                        } else if let Some(what) = oracle(&l, &one, &ex) {
+                            ctx.ev.violation("oracle", format!("report for {y}: {what}"), replay_text(prop, "oracle: run `cgt-tool report in.cgt --year <that year> --format json`", &what, &l, &[format!("case {name}"), format!("year {y}"), format!("exemptions {}", run_impl::exemptions_wire(&ex))]));
+                        }
+                    }
+                    Err(e) => if e.kind == "panic" { ctx.ev.violation("crash", format!("panic: {}", e.detail), replay_text(prop, "crash", &e.detail, &l, &[format!("year {y}")])); } else { ctx.ev.count(&format!("single-year-rejected:{}", e.kind)); }
                 }
             }
         }
